@@ -108,8 +108,9 @@ Fixpoint get_required_fields (e : expr) : list Field :=
 
 Fixpoint contains_numeric (e : expr) : bool :=
   match e with
-  | mkExpr l _ _ _ _ _ fd fn _ _ =>
-      if match fd with Some f => Field_is_numeric_field f | None => false end then true
+  | mkExpr l ao _ _ _ _ fd fn _ _ =>
+      if match ao with Some _ => true | None => false end then true       (* an arithmetic result is a number (fix 7b109d9) *)
+      else if match fd with Some f => Field_is_numeric_field f | None => false end then true
       else if match fn with Some f => Function_is_numeric_function f | None => false end then true
       else match l with Some x => contains_numeric x | None => false end
   end.
